@@ -411,7 +411,9 @@ func c18NilInsert(r *harness.Run) {
 					}
 				}
 				sig := fmt.Sprintf("nilinsert/%s/n=%d/pos=%d", via, n, pos)
-				r.Eval(sig, true, func() interface{} { return map[string]interface{}{"case": "insert of nil", "n": n, "pos": pos, "via": via} })
+				r.Eval(sig, true, func() interface{} {
+					return map[string]interface{}{"case": "insert of nil", "n": n, "pos": pos, "via": via}
+				})
 				if err := L.DoString(src); err != nil {
 					r.Violation("nilinsert/"+via+"/error", fmt.Sprintf("%s of nil at position %d of a %d-element list raised: %v", via, pos, n, err), map[string]interface{}{"source": src})
 					L.SetTop(0)
